@@ -1,6 +1,5 @@
 //! C16 — `cfavml_utils::aligned_buffer::AlignedBuffer`.
 
-use std::fmt::Write as _;
 
 use cfavml_utils::aligned_buffer::AlignedBuffer;
 
@@ -78,6 +77,9 @@ impl Case for BCase {
         hash_str(&mut h, self.ty);
         mix(&mut h, self.len as u64);
         h
+    }
+    fn calls(&self) -> u64 {
+        3 // zeroed, clone, zeroed (plus the accessor calls on them)
     }
     fn shrink(&self) -> Vec<Self> {
         let mut v = Vec::new();
